@@ -40,3 +40,5 @@ def run(ctx):
     S.r03_6_foreign_tags(ctx)
     from . import helpers_rules as H
     H.r16_1_purity(ctx, 'R01.7', roots=['yatiml.recognizer:Recognizer.recognize', 'yatiml.introspection:class_subobjects'], what='recognition and signature introspection')
+    from . import round3 as R3
+    R3.r01_10_tree_untouched(ctx)
